@@ -6,7 +6,7 @@
 From Coq Require Import ZArith QArith Qcanon List Lia.
 From DV Require Import Base.Field Base.FieldFacts Base.LinAlg Base.QcInst Model.Enums Model.Homog Model.Grid Model.Sampler
   Model.SamplerQc Model.Flow Model.FlowQc Model.FlowRepr Gen.GridT Proofs.C11Interp Proofs.C11Compose Proofs.C11Expv
-  Proofs.C13Compose Proofs.C10Axes Proofs.C10Conv Proofs.C10Repr Proofs.C10Conv3.
+  Proofs.C13Compose Proofs.C10Axes Proofs.C10Conv Proofs.C10Repr Proofs.C10Conv3 Proofs.C10Sample.
 Import ListNotations.
 
 Section Statements.
@@ -117,6 +117,22 @@ Theorem C10_exp_repr_independent_3d :
   forall A B scale k f,
   field_map3 (gvecs 3 A B g) (exp_code3 floorK A g scale k (repr3 K nx ny nz g A f)) = exp_code3 floorK B g scale k (repr3 K nx ny nz g B f).
 Proof. exact (exp_code3_repr_independent K Kf Kc floorK). Qed.
+
+(* 7. resampling on another grid: the vector re-scaling of FlowFields.sample (axes A of g -> axes A of g') commutes with
+      changing the representation (both are the two-grid vector map A@g -> B@g'), and is the identity on the same grid;
+      D in {2,3}, every pair of well-formed grids, all axes pairs *)
+Theorem C10_sample_vectors_repr_independent :
+  forall (D : nat), D = 2%nat \/ D = 3%nat -> forall (g g' : @gridf K) (A B : axes) (V : list K),
+  gwf D g -> gwf D g' -> length V = D ->
+  gvecs D A B g' (gvecs2 D A A g g' V) = gvecs2 D B B g g' (gvecs D A B g V) /\
+  gvecs D A B g' (gvecs2 D A A g g' V) = gvecs2 D A B g g' V /\
+  gvecs2 D A A g g V = V.
+Proof.
+  intros D HD g g' A B V Hw Hw' HV. split; [|split].
+  - now apply (regrid_commutes_with_axes K Kf Kc D HD).
+  - now apply (regrid_then_convert K Kf Kc D HD).
+  - now apply (regrid_same K Kf Kc D HD).
+Qed.
 End Statements.
 
 Print Assumptions C10_axes_roundtrip.
@@ -134,6 +150,7 @@ Print Assumptions C10_expv_convention_independent_3d.
 Print Assumptions C10_exp_spec_repr_independent_3d.
 Print Assumptions C10_exp_repr_independent_3d.
 Print Assumptions C10_warp_repr_independent_3d.
+Print Assumptions C10_sample_vectors_repr_independent.
 
 (* regression witness: the variant that exponentiates the UNCONVERTED tensor (the defect repaired in /repo 245f8d5) is
    told apart from the specification -- WORLD axes on a 3 x 2 anisotropic rotated grid *)
